@@ -5,8 +5,11 @@ import (
 	"math"
 	"sort"
 	"strings"
+	"sync"
 
 	"pgregory.net/rapid"
+
+	"github.com/NVIDIA/KAI-scheduler/pkg/scheduler/framework"
 )
 
 type ProgressFacts struct {
@@ -185,6 +188,27 @@ func CheckWorkConservation(w *World, rec *CycleRecord) ([]Finding, ProgressFacts
 				constrained = true
 			}
 		}
+		// the counting argument needs identical pods: the same request and the same claims for every pod of the
+		// workload (a pod replaced by its controller with another template, or a workload of which only some pods
+		// carry claims, is outside it)
+		shape := func(pv *PodView) string {
+			cl := ""
+			for _, pc := range pv.Raw.Spec.ResourceClaims {
+				if pc.ResourceClaimName != nil {
+					if rc := rec.After.Claims[*pc.ResourceClaimName]; rc != nil && len(rc.Spec.Devices.Requests) == 1 && rc.Spec.Devices.Requests[0].Exactly != nil {
+						cl += fmt.Sprintf("%s*%d;", rc.Spec.Devices.Requests[0].Exactly.DeviceClassName, rc.Spec.Devices.Requests[0].Exactly.Count)
+						continue
+					}
+				}
+				cl += "?;"
+			}
+			return fmt.Sprintf("%+v|%s", pv.Req, cl)
+		}
+		for _, pv := range pods[1:] {
+			if shape(pv) != shape(pods[0]) {
+				constrained = true
+			}
+		}
 		if constrained || len(req.Ext) > 0 {
 			facts.Skipped++
 			continue
@@ -314,7 +338,37 @@ func CheckWorkConservation(w *World, rec *CycleRecord) ([]Finding, ProgressFacts
 func hundredths(x float64) int64 { return int64(math.Round(x * 100)) }
 
 func JudgeWorkConservation(w *World) *Verdict {
-	h := Run(w, nil)
+	// The known C13 / C14 finding (the whole-GPU part of a node's Idle / Releasing counters drifts on nodes with shared
+	// GPUs, it can even go negative) also costs progress: a node whose releasing GPU count is negative refuses every
+	// task, CPU-only ones included. The accounting oracle of C14 runs alongside; a cycle in which it sees exactly that
+	// drift gives its work-conservation findings the signature of the known finding.
+	var mu sync.Mutex
+	drifted := map[int]bool{}
+	tracker := NewMoveTracker()
+	look := func(ssn *framework.Session, cycle int) {
+		for _, d := range CheckAccounting(ssn, true, tracker.Twins) {
+			if d.Sig == "node-whole-gpu-counter-differs-from-rebuild" {
+				mu.Lock()
+				drifted[cycle] = true
+				mu.Unlock()
+			}
+		}
+	}
+	opt := &Options{Hooks: Hooks{
+		AfterOpen: func(ssn *framework.Session, cycle int) {
+			tracker = NewMoveTracker()
+			tracker.Start(ssn)
+			handler := func(allocate bool) func(e *framework.Event) {
+				return func(e *framework.Event) {
+					tracker.Observe(ssn, allocate)
+					look(ssn, cycle)
+				}
+			}
+			ssn.AddEventHandler(&framework.EventHandler{AllocateFunc: handler(true), DeallocateFunc: handler(false)})
+		},
+		BeforeClose: func(ssn *framework.Session, cycle int) { look(ssn, cycle) },
+	}}
+	h := Run(w, opt)
 	v := &Verdict{History: h, Findings: EngineFindings(h)}
 	var tot ProgressFacts
 	for _, rec := range h.Cycles {
@@ -322,6 +376,13 @@ func JudgeWorkConservation(w *World) *Verdict {
 			continue
 		}
 		fs, f := CheckWorkConservation(w, rec)
+		if drifted[rec.Index] {
+			for i := range fs {
+				if fs[i].Sig == "c05-work-not-conserved" {
+					fs[i].Sig = "c05-work-not-conserved-while-whole-gpu-counters-drifted"
+				}
+			}
+		}
 		v.Findings = append(v.Findings, fs...)
 		tot.PendingLeft += f.PendingLeft
 		tot.PlacedSome += f.PlacedSome
